@@ -40,6 +40,9 @@ Proof. repeat split; reflexivity. Qed.
 Lemma bridge_shard_size_limit l n : shard_size_limit l n = (inject_Z l / inject_Z n)%Q.
 Proof. reflexivity. Qed.
 
+Lemma bridge_shard_limit_passed given ex : shard_limit_passed given ex = given || negb ex.
+Proof. reflexivity. Qed.
+
 Lemma bridge_dir_width : shard_dir_width = 3.
 Proof. reflexivity. Qed.
 
@@ -727,6 +730,16 @@ Proof.
   intros Hn [q ->]. rewrite bridge_shard_size_limit, Z.div_mul by lia. rewrite inject_Z_mult. field.
   apply inject_Z_nonzero. exact Hn.
 Qed.
+
+(* when a shard is handed its share: always when size_limit is given, and when the shard is new; a shard that exists and is
+   opened without size_limit is handed nothing (it keeps the share stored when it was created or last given one: C18) *)
+Theorem limit_handed given ex n :
+  shard_limit_handed given ex n =
+  match given, ex with
+  | None, true => None
+  | _, _ => Some (shard_limit given n)
+  end.
+Proof. unfold shard_limit_handed. rewrite bridge_shard_limit_passed. destruct given, ex; reflexivity. Qed.
 
 Example limit_default_8 : shard_limit None 8 == inject_Z 134217728 /\ (8 | default_size_limit)%Z.
 Proof. split; [vm_compute; reflexivity|exists 134217728%Z; reflexivity]. Qed.
